@@ -324,6 +324,22 @@ pub fn run(args: &Args) -> Report {
                 }
             }
         }
+        // two cooperating fields: every in-range blow-up exponent with out-of-range query counts etc.
+        for e in crate::malformed::cross_blowup_queries() {
+            if let crate::malformed::Edit::Multi(es) = &e {
+                let mut p2: swiftness_stark::types::StarkProof = serde_json::from_value(serde_json::to_value(&proof).unwrap()).unwrap();
+                let mut label = String::new();
+                for g in es {
+                    if let crate::malformed::Edit::Group(n, v) = g {
+                        apply_group(&mut p2, n, *v);
+                        label += &format!("group {n}({v}) ");
+                    }
+                }
+                check(rep, &p2.config, &level, &label);
+                check(rep, &p2.config, &BigUint::from(20u8), &format!("{label}at level 20"));
+                rep.inc("group.blowup_x_queries");
+            }
+        }
         // random pairs of single-field edits
         let n_pairs = if thorough { 300 } else { 60 };
         for _ in 0..n_pairs {
